@@ -1335,8 +1335,14 @@ def c07_execs(r, quick, rec):
                 K = (1, 2, 3, 8, 64)[(k + 2 * rep) % 5]
                 if K == 64 and N * D > 6:
                     K = 8 if rep % 2 == 0 else 64
-                p = gen.OptProblem(r, order, D, N, tm, sm, flags=flag_list(bits), K=K, rho=(0.0, 0.5, 2.0)[(k + rep) % 3])
-                cmds = [{"op": "reset"}] + p.cmds_setup(1, how="durs" if k % 3 else "pts")
+                # one in three problems with the user time map has a large or small overall time scale (durations of minutes / of
+                # hundredths of a second): the properties bound the ratio of durations, not their size
+                tscale = (64.0, 1.0 / 64, 512.0)[(k // 3) % 3] if (tm == "sq" and k % 3 == 0) else 1.0
+                p = gen.OptProblem(r, order, D, N, tm, sm, flags=flag_list(bits), K=K, rho=(0.0, 0.5, 2.0)[(k + rep) % 3], scale=tscale)
+                if tscale != 1.0:
+                    cmds = [{"op": "reset"}, {"op": "tmap_new", "map": 1, "scale": gen.hx(tscale)}] + p.cmds_setup(1, user_tmap=1, how="durs" if k % 3 else "pts")
+                else:
+                    cmds = [{"op": "reset"}] + p.cmds_setup(1, how="durs" if k % 3 else "pts")
                 # several evaluations per optimizer; workspaces (built-in = 0, external = 3) are REUSED across calls with other
                 # decision vectors and other cost functors: per-call buffers must be re-initialised by every call
                 wss = (0, 0, 3, 3) if k % 2 else (3, 0, 3, 0)
